@@ -400,7 +400,24 @@ func (s cmap6or10) Lookup(r rune) (GID, bool) {
 
 type cmap12 []tables.SequentialMapGroup
 
-func newCmap12(cm tables.CmapSubtable12) cmap12 { return cm.Groups }
+func newCmap12(cm tables.CmapSubtable12) cmap12 { return sanitizeGroups(cm.Groups) }
+
+// sanitizeGroups removes, in place, the groups which do not describe a (non empty) range
+// of valid runes, and clamps the other ones to valid runes.
+func sanitizeGroups(groups []tables.SequentialMapGroup) []tables.SequentialMapGroup {
+	const maxRune = 0x10FFFF
+	out := groups[:0]
+	for _, g := range groups {
+		if g.EndCharCode < g.StartCharCode || g.StartCharCode > maxRune {
+			continue
+		}
+		if g.EndCharCode > maxRune {
+			g.EndCharCode = maxRune
+		}
+		out = append(out, g)
+	}
+	return out
+}
 
 type cmap12Iter struct {
 	data cmap12
@@ -448,7 +465,7 @@ func (s cmap12) Lookup(r rune) (GID, bool) {
 
 type cmap13 []tables.SequentialMapGroup
 
-func newCmap13(cm tables.CmapSubtable13) cmap13 { return cm.Groups }
+func newCmap13(cm tables.CmapSubtable13) cmap13 { return sanitizeGroups(cm.Groups) }
 
 type cmap13Iter struct {
 	data cmap13
